@@ -255,3 +255,6 @@ def replay(witness):
             bad = bad or run_concat(inp['text']) != inp['text']
         return bad
     return impl_literal(inp['text']) == 'floatRaises'
+
+
+LEVEL_TEXT_EXT = ('C13Bridge: the number scanner of the expression parser model IS the C13 literal model for all texts (Unicode digits included); the text of every non-negative number parses, whole, to the number leaf; the one-line script v = <text> parsed and run by the machine binds v to the number (assign_literal_roundtrip).')
